@@ -95,6 +95,34 @@ def h_multi(E, ordered, n, interior):
     return [list(t) for t in tags]
 
 
+def h_multi3(E, tie_pattern):
+    """three alternative answer lists, ordered, 2 inputs: the reported list has maximal total also when several lists tie"""
+    from mitxgraders import ListGrader
+    import mitxgraders.listgrader as L
+    lists = [['a0', 'a1'], ['b0', 'b1'], ['c0', 'c1']]
+    stus = ['s0', 's1']
+    flat = [x for l in lists for x in l]
+    T = _table(E, flat, stus, True)
+    if tie_pattern == 'bc-identical':
+        # lists b and c earn the same credits box by box (e.g. the same list given twice)
+        T[('c0', 's0')] = T[('b0', 's0')]
+        T[('c1', 's1')] = T[('b1', 's1')]
+    TG = make_table_grader(T)
+    with shadow(L, np=NpObjProxy()):
+        g = ListGrader(answers=tuple(list(l) for l in lists), subgraders=TG(), ordered=True)
+        r = g(None, list(stus))
+    il = r['input_list']
+    tags = [_tag(ent) for ent in il]
+    E.check('reported-at-input-position', len(il) == 2 and all(tags[j][1] == stus[j] for j in range(2)))
+    fam = {t[0][0] for t in tags}
+    E.check('single-answer-list', len(fam) == 1)
+    if len(fam) != 1 or any(t not in T for t in tags):
+        return 'bad'
+    tot = sum(T[t] for t in tags)
+    E.check('best-list-and-assignment', sand(*[near_le(T[(X[0], 's0')] + T[(X[1], 's1')], tot) for X in lists]))
+    return [list(t) for t in tags]
+
+
 def h_nested(E, outer_ordered, inner_ordered, interior, layout):
     """grouping: 4 inputs in two groups of two, graded by a nested ListGrader"""
     from mitxgraders import ListGrader
@@ -206,6 +234,8 @@ def harnesses(tier):
     add(h_list, 'list', dict(ordered=True, partial=True, n=3, interior=False), 'n=3 ordered, credits in [0,1]')
     for ordered in (True, False):
         add(h_multi, 'multi', dict(ordered=ordered, n=2, interior=True), '2 answer lists, n=2, credits in (0,1)')
+    for tp in ('free', 'bc-identical'):
+        add(h_multi3, 'multi3', dict(ties=tp), '3 answer lists, 2 inputs, credits in (0,1)')
     for layout in ('1122', '1212'):
         add(h_nested, 'nested', dict(outer=False, inner=True, interior=True, layout=layout), '2 groups x 2 inputs, credits in (0,1)')
     add(h_nested, 'nested', dict(outer=True, inner=False, interior=True, layout='1221'), '2 groups x 2 inputs, credits in (0,1)')
